@@ -1843,7 +1843,7 @@ func (in *Interp) typesModel(f *VOpaque, args []Value, org string, t types.Type)
 			return r.attr(f.meth, func() Value { return &VOpaque{Origin: org, Kind: "*types.Tuple"} }), true
 		}
 		if f.meth == "Name" {
-			return r.attr(f.meth, func() Value { return hole("NAME", org) }), true
+			return r.attr(f.meth, func() Value { return holeV(&Hole{Kind: "NAME", Origin: org, Val: r}) }), true
 		}
 		return r.attr(f.meth, func() Value { return &VOpaque{Origin: org} }), true
 	case "Len", "NumFields", "NumMethods":
@@ -1945,7 +1945,7 @@ func (in *Interp) varName(o *VOpaque) VStr {
 	if a, ok := o.attrs["Name"]; ok {
 		return a.(VStr)
 	}
-	return o.attr("Name", func() Value { return hole("NAME", o.Origin+".Name()") }).(VStr)
+	return o.attr("Name", func() Value { return holeV(&Hole{Kind: "NAME", Origin: o.Origin + ".Name()", Val: o}) }).(VStr)
 }
 
 func (in *Interp) varType(o *VOpaque) Value {
